@@ -243,9 +243,10 @@ func (e *Exec) chanSend(st *State, cv Value, v Value) {
 	st.heap[c.Obj] = ArrayV{nq}
 }
 
-// arrayView returns a pointer usable as *[n]T for the first n elements of s.
+// arrayView returns a pointer usable as *[n]T for the first n elements of s. When the slice does not cover
+// exactly one whole array container the result points to a snapshot copy (sound for the read-only uses that
+// conversions like [2]byte(x) compile to; recorded in the stub statistics).
 func (e *Exec) arrayView(st *State, s SliceV, n int) Value {
-	// Only exact views are supported: offset 0 and container of matching kind; otherwise copy semantics would be wrong.
 	cont := e.load(st, s.Base)
 	switch c := cont.(type) {
 	case ByteArr:
@@ -256,12 +257,29 @@ func (e *Exec) arrayView(st *State, s SliceV, n int) Value {
 		if s.Off.konst && s.Off.cv == 0 && len(c.E) == n {
 			return s.Base
 		}
-	case ByteBuf:
-		if s.Off.konst && s.Off.cv == 0 && c.Len.konst && int(c.Len.cv) == n {
-			return s.Base
-		}
 	}
-	panic(unsupported("slice to array pointer with non-trivial view"))
+	e.stats.Stubs["slice-to-array-pointer:snapshot"]++
+	tc := e.tc
+	switch c := cont.(type) {
+	case ByteArr, ByteBuf:
+		content := e.containerContent(st, s.Base)
+		if n > bigArr {
+			v := ByteBuf{C: &CCopy{Prev: czero, DstOff: tc.Int(0), N: tc.Int(int64(n)), Src: content, SrcOff: s.Off}, Len: tc.Int(int64(n))}
+			return Ptr{Obj: e.alloc(st, v)}
+		}
+		el := make([]*Term, n)
+		for i := range el {
+			el[i] = e.sel(content, tc.Add(s.Off, tc.Int(int64(i))))
+		}
+		return Ptr{Obj: e.alloc(st, ByteArr{el})}
+	case ArrayV:
+		if !s.Off.konst {
+			panic(unsupported("slice to array pointer with symbolic offset"))
+		}
+		el := append([]Value(nil), c.E[s.Off.cv:int(s.Off.cv)+n]...)
+		return Ptr{Obj: e.alloc(st, ArrayV{el})}
+	}
+	panic(unsupported("slice to array pointer of %T", cont))
 }
 
 func (e *Exec) unop(st *State, fr *Frame, x *ssa.UnOp) []stepOut {
